@@ -6,6 +6,7 @@ from sa.deps import Facts, names_in, pseudo
 from sa.loader import AnalysisError, FuncInfo, own_nodes
 from sa.model import find_resloops, resloop_signature, row_loops, rowloop_signature, u, where
 from sa.paths import CONTINUE, FALL, RAISE, Enumerator, path_nodes
+from sa.pattern import find_expr, find_stmt, has_expr, has_stmt, match_expr, match_stmt
 
 SV = 'dataflows.base.schema_validator'
 
@@ -77,12 +78,12 @@ def validator_loop(ctx):
               'the validator leaves a row or the stream early')
     # checked fields: default all, else those named
     facts = Facts(sv, include_nested=False)
-    body = u(sv.node)
-    ok = 'field_names = [f.name for f in schema.fields]' in body and \
-        'schema_fields = [f for f in schema.fields if f.name in field_names]' in body
+    ok = has_stmt('if _fn is None:\n    _fn = [_f.name for _f in _s.fields]', sv.node) and \
+        has_stmt('_sf = [_f for _f in _s.fields if _f.name in _fn]', sv.node) and \
+        pseudo(inner[0].iter) in [b['_sf'] for _, b in find_stmt('_sf = [_f for _f in _s.fields if _f.name in _fn]', sv.node)]
     run.check(ok, 'VAL', sv.where, sv.qualname, 'checked fields = schema fields whose name is requested (default: all)',
               'the set of checked fields is not exactly the requested fields')
-    ok = 'if on_error is None' in body and 'on_error = raise_exception' in body and 'on_error = wrap_handler(on_error)' in body
+    ok = has_stmt('if on_error is None:\n    on_error = raise_exception', sv.node) and has_stmt('on_error = wrap_handler(on_error)', sv.node)
     run.check(ok, 'VAL', sv.where, sv.qualname, 'default policy raise; handler wrapped', 'the default policy is not raise')
 
 
@@ -128,9 +129,10 @@ def policy_table(ctx):
     run.check(okc, 'POL', c.where, c.qualname, 'field given: row[field.name] = None; True / no field: False',
               'clear does not null exactly the offending field')
     w = repo.func(SV + ':wrap_handler')
-    body = u(w.node)
     inner = [f for f in repo.functions.values() if f.parent is w and not isinstance(f.node, ast.Lambda)]
-    ok = 'len(list(signature(on_error).parameters)) > 4' in body and len(inner) == 1 and len(inner[0].params) == 5
+    ok = (has_expr('len(list(signature(_h).parameters)) > 4', w.node) or has_expr('len(signature(_h).parameters) > 4', w.node)
+          or has_expr('len(list(signature(_h).parameters)) >= 5', w.node) or has_expr('len(signature(_h).parameters) >= 5', w.node)) \
+        and len(inner) == 1 and len(inner[0].params) == 5
     if ok:
         r = [n for n in own_nodes(inner[0].node) if isinstance(n, ast.Return)]
         ok = len(r) == 1 and isinstance(r[0].value, ast.Call) and pseudo(r[0].value.func) == 'on_error' and \
@@ -138,7 +140,7 @@ def policy_table(ctx):
         paths = Enumerator(where=w.qualname).paths(w.node.body)
         for p in paths:
             rets = [it.node for it in p.items if it.kind == 'return']
-            g = [pol for t, pol in p.guards() if '> 4' in u(t)]
+            g = [pol for t, pol in p.guards() if '> 4' in u(t) or '>= 5' in u(t)]
             if g and g[0]:
                 ok = ok and pseudo(rets[0].value) == 'on_error'
             elif g:
@@ -181,8 +183,8 @@ def set_type_validate(ctx):
               'the transform is not applied to the rows before they are cast')
     tf = st.methods['transformer']
     loop, var, _ = observers.single_row_loop(ctx, tf, 'rows')
-    body = u(loop)
-    ok = 'row[field_name] = self.transform(row.get(field_name), field_name=field_name, row=row)'.replace('row', var) in body
+    ok = has_stmt('_row[_f] = self.transform(_row.get(_f), field_name=_f, row=_row)', loop, {'_row': var}) or \
+        has_stmt('_row[_f] = self.transform(_row[_f], field_name=_f, row=_row)', loop, {'_row': var})
     sig = rowloop_signature(tf, loop, var)
     ok = ok and all([k for k, _ in s.yields] == ['identity'] and s.term == FALL for s in sig)
     run.check(ok, 'R20', tf.where, tf.qualname, 'row[f] = transform(row.get(f), field_name=f, row=row); yield row',
@@ -200,14 +202,14 @@ def set_type_validate(ctx):
     run.check(ok, 'R20', pd.where, pd.qualname, "if self.name.match(field['name']): field.update(options); record name for this resource",
               'options are merged into fields other than those whose name the pattern matches, or the names handed to the validator differ')
     init = st.methods['__init__']
-    run.check("self.name = re.compile(f'^{name}$')" in u(init.node) and 'if not regex' in u(init.node) and 'name = re.escape(name)' in u(init.node),
+    run.check(has_stmt("self.name = re.compile(f'^{name}$')", init.node) and has_stmt('if not regex:\n    name = re.escape(name)', init.node),
               'R20', init.where, init.qualname, 'anchored pattern; re.escape when regex is off', 'the field-name pattern is not a full-string pattern')
-    run.check('self.on_error = on_error' in u(init.node) and 'self.options = options' in u(init.node), 'R20', init.where, init.qualname,
+    run.check(has_stmt('self.on_error = on_error', init.node) and has_stmt('self.options = options', init.node), 'R20', init.where, init.qualname,
               'on_error / options stored', 'set_type loses its on_error or options')
     # validate
     va = repo.cls('dataflows.processors.validate:validate')
     vi = va.methods['__init__']
-    run.check('self.on_error = wrap_handler(on_error)' in u(vi.node) and 'on_error = raise_exception' in u(vi.node), 'R20', vi.where,
+    run.check(has_stmt('self.on_error = wrap_handler(on_error)', vi.node) and has_stmt('if on_error is None:\n    on_error = raise_exception', vi.node), 'R20', vi.where,
               vi.qualname, 'default raise, wrapped once', 'validate does not default to raise / wrap the handler')
     rv = repo.func('dataflows.processors.validate:validate.rows_validator.func')
     loop = [n for n in own_nodes(rv.node) if isinstance(n, ast.For)][0]
@@ -230,10 +232,10 @@ def set_type_validate(ctx):
               'valid -> yield; invalid -> yield iff on_error(res_name, row, i, None, None)',
               'custom validators do not keep valid rows and route invalid ones through the policy')
     vs = repo.func('dataflows.processors.validate:validate.validate_with_schema.func')
-    run.check('yield from schema_validator(res.res, res, on_error=self.on_error)' in u(vs.node), 'R20', vs.where, vs.qualname,
+    run.check(has_expr('(yield from schema_validator(_r.res, _r, on_error=self.on_error))', vs.node), 'R20', vs.where, vs.qualname,
               'schema_validator(res.res, res, on_error=self.on_error)', 'schema validation does not use the configured policy')
     frv = repo.func('dataflows.processors.validate:validate.row_validator.func')
-    run.check(u(frv.node.body[0]) == 'return field_validator(row.get(field))', 'R20', frv.where, frv.qualname,
+    run.check(has_stmt('return field_validator(_row.get(field))', frv.node) or has_stmt('return field_validator(_row[field])', frv.node), 'R20', frv.where, frv.qualname,
               'field validator applied to row.get(field)', 'the field validator is applied to another value')
 
 
